@@ -6,6 +6,7 @@ A contract is a class decorated with @contract('<module>:<qualname>', props=[...
     types        = {'param': <type spec>}     typing of parameters (assumed on entry, proved at call sites)
     pins         = {'param': '<module>:<qualname>'}   parameter is this very class / function object
     def requires*(...)                        preconditions (spec expressions over the parameters)
+    def callsite_requires*(...)               protocol conditions proved at the library's own call sites only
     def ensures*(..., result)                 postconditions of a normal return
     def returns_iff(...)                      returns normally  <=>  condition (else raises one of raises_only)
     raises_only  = ('<class>', ...)           the only exception classes that may escape
@@ -121,7 +122,9 @@ def load_contracts(index: Index, module_names: List[str]) -> Dict[str, Contract]
                 else:
                     ct.extra[an] = val
             for fname, fi in c.methods.items():
-                if fname.startswith('requires'):
+                if fname.startswith('callsite_requires'):
+                    ct.extra.setdefault('callsite_requires', []).append(fi)
+                elif fname.startswith('requires'):
                     ct.requires.append(fi)
                 elif fname == 'returns_iff':
                     ct.returns_iff = fi
